@@ -221,7 +221,7 @@ def r37(ctx: Ctx) -> RuleReport:
         p0 = fi.positional[0]
         for call, ts in ctx.cg.calls_in(fi):
             if any(t.kind == 'func' and t.func.fq == lex.fq for t in ts):
-                a0 = call.args[0] if call.args else None
+                a0 = call.args[0] if call.args else next((k.value for k in call.keywords if k.arg == lex.positional[0]), None)
                 good = isinstance(a0, ast.Name) and a0.id == p0 and not ctx.cg.local_assigns(fi).get(p0)
                 rewritten = [v for v in (ctx.cg.local_assigns(fi).get(p0) or []) if isinstance(v, ast.Call)
                              and any(isinstance(x, ast.Name) and x.id == p0 for x in ast.walk(v))]
